@@ -28,7 +28,7 @@ TASK_WEIGHTS = {
             "valedit": 1, "cloner": 1},
 }
 
-ALL_FAULTS = ("solver_raise", "solver_badshape", "solver_scribble", "solver_nan",
+ALL_FAULTS = ("alloc_in_apply", "solver_raise", "solver_badshape", "solver_scribble", "solver_nan",
               "singular", "unknown_term", "bad_tuple", "foreign_term", "explicit_badrhs",
               "algebra_mismatch", "eval_raises",
               "radial_periodic", "bad_shape_assign", "partial_utility",
@@ -1109,6 +1109,23 @@ class FaultInjector(Task):
         m = ve.meta["mesh"]
         nd = g.nd_of_mesh(m)
         sides = [s for s in A.SIDES if A.SIDE_AXIS[s] < nd]
+        if kind == "alloc_in_apply":
+            inner = rng.choice(("alloc_cache", "alloc_cache", "alloc_ghost"))
+            if rng.random() < 0.5:
+                return [{"k": "apply", "a": {"v": v, "inner": inner, "nth": 1}}]
+            t = g.pick("t", lambda e: e.meta.get("mesh") == m and e.meta["kind"] in ("M", "MR"))
+            ops = []
+            if t is None:
+                D = g.fresh("f")
+                ops.append({"k": "face", "out": D, "a": {"m": m, "scalar": 1.0}})
+                t = g.fresh("t")
+                ops.append({"k": "build", "out": t, "a": {"fn": "diffusionTerm", "args": [D]}})
+            tt = g.fresh("t")
+            ops.append({"k": "build", "out": tt, "a": {"fn": "transientTerm", "args": [v, 0.1, 1.0]}})
+            neg = g.w.ents[t].meta.get("recipe", {}).get("fn") == "diffusionTerm" if t in g.w.ents else True
+            ops.append({"k": "solve", "a": {"v": v, "terms": [{"t": tt}, {"t": t, "neg": bool(neg)}],
+                                            "solver": None, "inner": inner, "nth": rng.choice((1, 2))}})
+            return ops
         if kind == "bad_shape_assign":
             wv = g.pick("w")
             if wv and rng.random() < 0.3:
